@@ -227,6 +227,40 @@ static void half_close(vh_rng *r, int v6) {
 	p_socket_free(cl); p_socket_free(ls); p_socket_address_free(la); p_socket_address_free(ba);
 }
 
+int __real_close(int); int __real_socket(int, int, int);
+/* ---------------- refused connect: a blocking connect fails for the real reason, it is never reported as completed ----------------
+ * The port is reserved by a bound socket that never listens, so the handshake is answered with a reset; the library's descriptor is
+ * non-blocking internally, so the refusal arrives after the wait for writability (SO_ERROR). */
+static long long st_refused;
+static void refused_connect(vh_rng *r, int v6, int inject) {
+	int fd = __real_socket(v6 ? AF_INET6 : AF_INET, SOCK_STREAM, 0), port = 0; struct sockaddr_storage ss; socklen_t sl = sizeof ss; PSocket *cl; PSocketAddress *a; PError *err = NULL; pboolean ok;
+	scen = inject ? "refused-connect-eintr" : "refused-connect"; w_reset();
+	memset(&ss, 0, sizeof ss); ss.ss_family = (sa_family_t)(v6 ? AF_INET6 : AF_INET);
+	if (v6) ((struct sockaddr_in6 *)&ss)->sin6_addr = in6addr_loopback; else ((struct sockaddr_in *)&ss)->sin_addr.s_addr = htonl(INADDR_LOOPBACK);
+	if (fd >= 0 && bind(fd, (struct sockaddr *)&ss, v6 ? sizeof(struct sockaddr_in6) : sizeof(struct sockaddr_in)) == 0 && getsockname(fd, (struct sockaddr *)&ss, &sl) == 0)
+		port = ntohs(v6 ? ((struct sockaddr_in6 *)&ss)->sin6_port : ((struct sockaddr_in *)&ss)->sin_port);
+	if (!port) { if (fd >= 0) __real_close(fd); return; }      /* not judged */
+	cl = p_socket_new(v6 ? P_SOCKET_FAMILY_INET6 : P_SOCKET_FAMILY_INET, P_SOCKET_TYPE_STREAM, P_SOCKET_PROTOCOL_TCP, NULL);
+	a = p_socket_address_new(v6 ? "::1" : "127.0.0.1", (puint16)port);
+	if (!cl || !a) { __real_close(fd); p_socket_free(cl); p_socket_address_free(a); return; }
+	p_socket_set_timeout(cl, 20000);
+	if (inject) set_plans(r, 30, WK_EINTR);
+	ok = p_socket_connect(cl, a, &err);
+	collect_inj(); w_reset();
+	st_refused++;
+	if (ok) {
+		char b[5] = "ping"; pssize n = p_socket_send(cl, b, 5, NULL);
+		viol("connect-reported-completed", "blocking p_socket_connect to a port nobody listens on returned TRUE (is_connected=%d, a following send returned %zd)", (int)p_socket_is_connected(cl), (ssize_t)n);
+	} else {
+		int code = err ? p_error_get_code(err) : 0, nat = err ? p_error_get_native_code(err) : 0;
+		if (code == P_ERROR_IO_WOULD_BLOCK || code == P_ERROR_IO_IN_PROGRESS || nat == EINTR || nat == EAGAIN || nat == EINPROGRESS)
+			viol("internal-condition-reported", "blocking p_socket_connect to a refusing port reported an internal condition (code %d native %d) instead of the refusal", code, nat);
+		if (p_socket_is_connected(cl)) viol("connected-after-failed-connect", "p_socket_is_connected is TRUE after a refused connect");
+	}
+	p_error_free(err); __real_close(fd);
+	p_socket_free(cl); p_socket_address_free(a);
+}
+
 static int vh_isolated;
 int main(int argc, char **argv) {
 	vh_rng r; double t0 = vh_now(); int tcp = (int)vh_argi(argc, argv, "--tcp", 8), udp = (int)vh_argi(argc, argv, "--udp", 6), i, id; long long bulk = vh_argi(argc, argv, "--bulk", 2 << 20); pthread_t wd;
@@ -242,10 +276,11 @@ int main(int argc, char **argv) {
 	}
 	for (i = 0; i < udp && vh_nviol < vh_max_viol; i++) udp_session(&r, vh_chance(&r, 40), (int)vh_argi(argc, argv, "--dgrams", 300), (int[]){ 0, 10, 30, 50 }[vh_below(&r, 4)], (int[]){ WK_EINTR, WK_EAGAIN, WK_EINTR | WK_EAGAIN | WK_SPURIOUS }[vh_below(&r, 3)]);
 	for (i = 0; i < 4 && vh_nviol < vh_max_viol; i++) half_close(&r, i & 1);
+	for (i = 0; i < 8 && vh_nviol < vh_max_viol; i++) refused_connect(&r, i & 1, (i >> 1) & 1);
 	if (!vh_flag(argc, argv, "--no-peer-gone")) { peer_gone(0, 0, 0); peer_gone(1, 0, 0); peer_gone(0, 1, 0); peer_gone(1, 1, 0); peer_gone(0, 0, 1); peer_gone(1, 0, 1); }
 	p_libsys_shutdown();
-	printf("{\"ev\":\"stats\",\"tcp_sessions\":%lld,\"tcp_bytes\":%lld,\"udp_sessions\":%lld,\"udp_datagrams\":%lld,\"udp_lost\":%lld,\"udp_truncated\":%lld,\"wouldblock_seen_nonblocking\":%lld,\"peer_gone_cases\":%lld,\"half_close_exchanges\":%lld,\"empty_datagrams\":%lld,\"injected\":{",
-	       st_tcp_sessions, st_tcp_bytes, st_udp_sessions, st_udp_datagrams, st_udp_lost, st_udp_truncated, st_wouldblock_seen, st_peer_gone, st_halfclose, st_udp_empty);
+	printf("{\"ev\":\"stats\",\"tcp_sessions\":%lld,\"tcp_bytes\":%lld,\"udp_sessions\":%lld,\"udp_datagrams\":%lld,\"udp_lost\":%lld,\"udp_truncated\":%lld,\"wouldblock_seen_nonblocking\":%lld,\"peer_gone_cases\":%lld,\"half_close_exchanges\":%lld,\"empty_datagrams\":%lld,\"refused_connects\":%lld,\"injected\":{",
+	       st_tcp_sessions, st_tcp_bytes, st_udp_sessions, st_udp_datagrams, st_udp_lost, st_udp_truncated, st_wouldblock_seen, st_peer_gone, st_halfclose, st_udp_empty, st_refused);
 	{ int first = 1; for (id = 0; id < W_N; id++) if (st_inj[id][0] + st_inj[id][1] + st_inj[id][2] + st_inj[id][3]) { printf("%s\"%s\":[%ld,%ld,%ld,%ld]", first ? "" : ",", w_names[id], st_inj[id][0], st_inj[id][1], st_inj[id][2], st_inj[id][3]); first = 0; } }
 	printf("},\"viol\":%d,\"wall\":%.2f}\n", vh_nviol, vh_now() - t0);
 	return 0;
